@@ -170,7 +170,8 @@ def c17_tracks(ntr: int, o1: int, vel: int) -> bool:
         x.velocity = vel
         y = Note("D", o1 + 1)
         y.velocity = vel
-        bars = [(KEYS[(11 * i) % 30], (4, 4), [(4, [x]), (4, None), (2, [x, y])])]
+        # relative keys next to each other: same signature, other mode
+        bars = [(["C", "a", "e", "G"][i], (4, 4), [(4, [x]), (4, None), (2, [x, y])])]
         t = _mk_track(bars, None)
         t.name = "t%d" % i
         c.add_track(t)
@@ -184,6 +185,9 @@ def c17_tracks(ntr: int, o1: int, vel: int) -> bool:
     for i in range(ntr):
         if _flatten_track(c2.tracks[i]) != want[i] or c2.tracks[i].name != "t%d" % i:
             return False
+        for bar in c2.tracks[i].bars:
+            if len(bar.bar) and (bar.meter != (4, 4) or bar.key.key != ["C", "a", "e", "G"][i]):
+                return False
     return True
 
 
